@@ -44,6 +44,17 @@ type W struct {
 
 func (W) TableName() string { return "ws" }
 
+// WS is the same model with soft delete (its own table).
+type WS struct {
+	W
+	DeletedAt gorm.DeletedAt
+}
+
+func (WS) TableName() string { return "wss" }
+
+// FixNow is what NowFunc returns on every target (the value a soft delete binds).
+var FixNow = time.Date(2021, 2, 3, 4, 5, 6, 0, time.UTC)
+
 // ---- values ------------------------------------------------------------------------------
 
 // Val is an abstract value: id k; Str selects a hostile string, U8 a small number of a named
@@ -192,6 +203,7 @@ type Pair struct {
 type Prog struct {
 	Parts []Part `json:"parts"`
 	Fin   Fin    `json:"fin"`
+	Soft  bool   `json:"soft"` // the statement targets the soft-delete model
 }
 
 // ---- JSON for TLA+ (no nulls) ------------------------------------------------------------
@@ -241,7 +253,7 @@ func progJ(p Prog) hx.M {
 		}
 		return out
 	}
-	return hx.M{"parts": parts, "fin": hx.M{"kind": p.Fin.Kind, "pay": pay(p.Fin.Pay), "pay2": pay(p.Fin.Pay2)}}
+	return hx.M{"parts": parts, "fin": hx.M{"kind": p.Fin.Kind, "pay": pay(p.Fin.Pay), "pay2": pay(p.Fin.Pay2)}, "soft": p.Soft, "now": idOf(FixNow)}
 }
 
 // ---- rendering ---------------------------------------------------------------------------
@@ -449,46 +461,64 @@ func Run(base *gorm.DB, p Prog) *gorm.DB {
 	for _, part := range p.Parts {
 		tx = apply(tx, base, part)
 	}
+	mdl := func() interface{} {
+		if p.Soft {
+			return &WS{}
+		}
+		return &W{}
+	}
+	sl := func() interface{} {
+		if p.Soft {
+			return &[]WS{}
+		}
+		return &[]W{}
+	}
+	rec := func(w W) interface{} {
+		if p.Soft {
+			return &WS{W: w}
+		}
+		return &w
+	}
 	switch p.Fin.Kind {
 	case "find":
-		var out []W
-		return tx.Find(&out)
+		return tx.Find(sl())
 	case "first":
-		var out W
-		return tx.First(&out)
+		return tx.First(mdl())
 	case "count":
 		var n int64
-		return tx.Model(&W{}).Count(&n)
+		return tx.Model(mdl()).Count(&n)
 	case "pluck":
 		var ids []int64
-		return tx.Model(&W{}).Pluck("id", &ids)
+		return tx.Model(mdl()).Pluck("id", &ids)
 	case "update":
-		return tx.Model(&W{}).Update(p.Fin.Pay[0].Col, p.Fin.Pay[0].V.Go())
+		return tx.Model(mdl()).Update(p.Fin.Pay[0].Col, p.Fin.Pay[0].V.Go())
 	case "updates":
-		w := wOf(p.Fin.Pay)
-		return tx.Model(&W{}).Updates(w)
+		return tx.Model(mdl()).Updates(rec(wOf(p.Fin.Pay)))
 	case "updates_map":
-		return tx.Model(&W{}).Updates(mapOf(p.Fin.Pay))
+		return tx.Model(mdl()).Updates(mapOf(p.Fin.Pay))
 	case "delete":
-		return tx.Delete(&W{})
+		return tx.Delete(mdl())
 	case "delete_returning":
-		var out []W
-		return tx.Model(&out).Clauses(clause.Returning{}).Delete(&out)
+		out := sl()
+		return tx.Model(out).Clauses(clause.Returning{}).Delete(out)
 	case "update_returning":
-		var out []W
-		return tx.Model(&out).Clauses(clause.Returning{Columns: []clause.Column{{Name: "id"}}}).Update(p.Fin.Pay[0].Col, p.Fin.Pay[0].V.Go())
+		out := sl()
+		return tx.Model(out).Clauses(clause.Returning{Columns: []clause.Column{{Name: "id"}}}).Update(p.Fin.Pay[0].Col, p.Fin.Pay[0].V.Go())
 	case "create":
-		w := wOf(p.Fin.Pay)
-		return base.Create(&w)
+		return base.Create(rec(wOf(p.Fin.Pay)))
 	case "create_slice":
+		if p.Soft {
+			ws := []WS{{W: wOf(p.Fin.Pay)}, {W: wOf(p.Fin.Pay2)}}
+			return base.Create(&ws)
+		}
 		ws := []W{wOf(p.Fin.Pay), wOf(p.Fin.Pay2)}
 		return base.Create(&ws)
 	case "create_map":
-		return base.Model(&W{}).Create(mapOf(p.Fin.Pay))
+		return base.Model(mdl()).Create(mapOf(p.Fin.Pay))
 	case "upsert":
 		w := wOf(p.Fin.Pay)
 		w.ID = 1
-		return base.Clauses(clause.OnConflict{Columns: []clause.Column{{Name: "id"}}, DoUpdates: clause.Assignments(mapOf(p.Fin.Pay2))}).Create(&w)
+		return base.Clauses(clause.OnConflict{Columns: []clause.Column{{Name: "id"}}, DoUpdates: clause.Assignments(mapOf(p.Fin.Pay2))}).Create(rec(w))
 	}
 	panic("fin " + p.Fin.Kind)
 }
@@ -535,12 +565,13 @@ type Targets struct {
 }
 
 func NewTargets() (*Targets, error) {
-	t := &Targets{fixNow: time.Date(2021, 2, 3, 4, 5, 6, 0, time.UTC)}
+	t := &Targets{fixNow: FixNow}
+	fixed := func() time.Time { return FixNow }
 	var err error
-	if t.Q, err = gorm.Open(dummy{}, &gorm.Config{DryRun: true, Logger: logger.Discard}); err != nil {
+	if t.Q, err = gorm.Open(dummy{}, &gorm.Config{DryRun: true, Logger: logger.Discard, NowFunc: fixed}); err != nil {
 		return nil, err
 	}
-	if t.D, err = gorm.Open(dummy{dollar: true}, &gorm.Config{DryRun: true, Logger: logger.Discard}); err != nil {
+	if t.D, err = gorm.Open(dummy{dollar: true}, &gorm.Config{DryRun: true, Logger: logger.Discard, NowFunc: fixed}); err != nil {
 		return nil, err
 	}
 	rec := recdrv.New()
@@ -552,7 +583,7 @@ func NewTargets() (*Targets, error) {
 		return nil, err
 	}
 	t.Rec, t.SQLDB = rec, sqldb
-	if err := t.Real.AutoMigrate(&W{}); err != nil {
+	if err := t.Real.AutoMigrate(&W{}, &WS{}); err != nil {
 		return nil, err
 	}
 	return t, nil
@@ -753,8 +784,10 @@ func RandProg(r *rand.Rand) Prog {
 	var p Prog
 	kinds := []string{"find", "first", "count", "pluck", "update", "updates", "updates_map", "delete", "delete_returning", "update_returning", "create", "create_slice", "create_map", "upsert", "raw", "exec", "rows"}
 	p.Fin.Kind = kinds[r.Intn(len(kinds))]
+	p.Soft = r.Intn(3) == 0
 	switch p.Fin.Kind {
 	case "raw", "exec", "rows":
+		p.Soft = false
 		n := 1 + r.Intn(3)
 		part := Part{M: "Raw", Named: r.Intn(4) == 0}
 		for i := 0; i < n; i++ {
@@ -784,7 +817,10 @@ func RandProg(r *rand.Rand) Prog {
 	}
 	ms := []string{"Where", "Where", "Where", "Not", "Or", "Clauses"}
 	if p.Fin.Kind == "find" || p.Fin.Kind == "first" {
-		ms = append(ms, "Having", "Joins", "Select", "Table", "JoinsRel", "JoinsRel2")
+		ms = append(ms, "Having", "Joins", "Select", "JoinsRel", "JoinsRel2")
+		if !p.Soft {
+			ms = append(ms, "Table")
+		}
 	}
 	if p.Fin.Kind == "find" { // First replaces an expression ORDER BY by its own key ordering
 		ms = append(ms, "Order")
